@@ -177,3 +177,13 @@ Theorem C15_scaled_roundtrip :
 Proof. exact scaled_roundtrip. Qed.
 Print Assumptions C15_scaled_roundtrip.
 
+
+Theorem C15_reset_order_sensitive :
+  let l0 : L2 := (60, -60) in
+  let cv := map (mkvar (O:=ROps) get2 l0) [true] in
+  let l := upd2 (set2 l0 true 65) in
+  reach (O:=ROps) set2 upd2 [true] l0 l /\
+  treset (O:=ROps) set2 upd2 [] cv l = l0 /\
+  treset_update_early (O:=ROps) set2 upd2 [] cv l <> l0.
+Proof. exact reset_order_sensitive. Qed.
+Print Assumptions C15_reset_order_sensitive.
